@@ -1,5 +1,5 @@
 (* C10: the OMEN generator enumerates each level exactly (work in progress). *)
-From Coq Require Import List NArith ZArith.
+From Coq Require Import List Bool NArith ZArith.
 From Pcfg Require Import OmenSpec Omen OmenCorr.
 From PcfgGen Require Import Consts_gen.
 Import ListNotations.
